@@ -653,9 +653,10 @@ func (pr *ProtoArray) OnPrune(ctx context.Context, anchorRoot Root, anchorSlot S
 		}
 		if node.ForkchoiceParent != NONE && node.ForkchoiceParent < pr.indexOffset {
 			node.ForkchoiceParent = NONE
-			// A block built on the anchor root stays attached to the anchor (the anchor may be a gap slot,
-			// later than the node the block was attached to).
-			if node.ParentRoot == anchorRoot && node.Ref.Root != anchorRoot && prunedUpTo == len(pruned) {
+			// A block built on the anchor root after the anchor slot stays attached to the anchor (the anchor
+			// may be a gap slot, later than the node the block was attached to). A block at or before the anchor
+			// slot is on another branch.
+			if node.ParentRoot == anchorRoot && node.Ref.Root != anchorRoot && node.Ref.Slot > anchorSlot && prunedUpTo == len(pruned) {
 				node.ForkchoiceParent = anchorIndex
 			}
 		}
